@@ -19,7 +19,7 @@ RULE = ("endings = {orderly release, close (FIN and RST) after every byte offset
         "resource or held a session instance")
 ASSUMPTIONS = ["'at quiescence' = after the disconnect hook was observed and the worker/selector slot count settled, awaited with a 10 s watchdog (expiry = inconclusive unless a server thread died)",
                "connections whose handshake was refused are only required to see <= 1 hook call and a closed socket"]
-REQUIRED_REACH = ["ending_ok", "offset_endings", "resources_closed_once", "session_instances_dropped", "witness_unaffected", "timeout_endings", "security_endings", "callback_endings", "churn_connections_checked", "injected_yields"]
+REQUIRED_REACH = ["ending_ok", "offset_endings", "resources_closed_once", "session_instances_dropped", "witness_unaffected", "timeout_endings", "security_endings", "callback_endings", "churn_connections_checked", "injected_yields", "application_hooks_that_raised"]
 SHARD_TIMEOUT = {"quick": 240, "thorough": 3000}
 
 
@@ -38,6 +38,7 @@ class Res(object):
 class World:
     def __init__(self):
         self.lock = threading.Lock()
+        self.hook_failures = 0
         self.conns = {}       # serial -> {"tracked": [Res], "untracked": [Res], "session": weakref or None, "conn": SocketConnection}
         self.rid = 0
 
@@ -101,6 +102,13 @@ def make_env(P, servertype, commtimeout, linger=30.0, pool=(2, 40)):
     fx = fixture.Fixture(servertype=servertype, COMMTIMEOUT=commtimeout, THREADPOOL_SIZE=pool[1], THREADPOOL_SIZE_MIN=pool[0], ITER_STREAMING=True, ITER_STREAM_LINGER=linger)
     fx.register(Svc(), "svc")
     fx.register(Sess, "sess")
+
+    def failing_hook(conn):
+        # an application's clientDisconnect() hook may fail; the daemon's own cleanup of that connection must not depend on it
+        if getattr(conn, "_vserial", 0) % 3 == 0:
+            world.hook_failures += 1
+            raise RuntimeError("application disconnect hook failed for connection %s" % getattr(conn, "_vserial", None))
+    fx.daemon.on_disconnect = failing_hook
     return fx, world
 
 
@@ -522,6 +530,7 @@ def run_shard(shard, rec):
         for serial, n in counts.items():
             if n > 1 and serial is not None:
                 rec.violation("disconnect-hook-count", "disconnect hook called %d times for connection %s (final sweep)" % (n, serial), None)
+        rec.count("application_hooks_that_raised", world.hook_failures)
     finally:
         fx.stop()
 
